@@ -273,10 +273,11 @@ where
                 }
             }
 
-            // Skip if outside boundary.
+            // Skip if outside boundary. Successors outside the boundary are never chosen below, so
+            // this can only be the initial state: there is no trace to report anything about.
             if !model.within_boundary(&state) {
                 log::trace!("Found state outside of boundary");
-                break;
+                return;
             }
 
             // add the current fingerprint to the path
@@ -377,6 +378,11 @@ where
                     None => {
                         // this action was ignored, try and choose another
                         log::trace!("No next state");
+                    }
+                    Some(next_state) if !model.within_boundary(&next_state) => {
+                        // leaving the boundary does not end the path (it may continue inside the
+                        // boundary via another action), try and choose another
+                        log::trace!("Next state outside of boundary");
                     }
                     Some(next_state) => {
                         // now clear the actions for the next round
